@@ -295,6 +295,39 @@ Section SYNC.
                  mkSy (sy_r o2) (sy_st o2) (sy_ws o ++ sy_ws o2) (sy_reqs o ++ sy_reqs o2)
           end
     end.
+
+  (* Run with its clock. Time is counted in periods; while the node is behind, Handler.run sends
+     one sync request per tick. What Run does with a request:
+       - dropped when the target is already stored;
+       - when the context of the previous Sync is done (it returned: [tk_inflight] = false) or
+         [now] is after lastRoundTime + factor periods: cancel it, lastRoundTime := now, start a new
+         Sync (the next element of [tk_left]);
+       - otherwise NOTHING: in particular a request that finds a Sync in flight does not touch
+         lastRoundTime. lastRoundTime also moves to [now] with every beacon the Sync stores.
+     A blocked Sync that is cancelled returns without writing. *)
+  Record tick_state := mkTk {
+    tk_st : store;
+    tk_inflight : bool;              (* a Sync is blocked on a silent peer, its context alive *)
+    tk_last : Z;                     (* lastRoundTime, in periods *)
+    tk_ws : list beacon;
+    tk_reqs : list Z;
+    tk_left : list (list peer)
+  }.
+
+  Definition tick_request (factor upTo now : Z) (s : tick_state) : tick_state :=
+    if (0 <? upTo) && (upTo <=? head_of (s_base (tk_st s))) then s
+    else if negb (tk_inflight s) || (tk_last s + factor <? now) then
+      let o := sync_loop 0 upTo (tk_st s) (match tk_left s with a :: _ => a | [] => [] end) in
+      mkTk (sy_st o) (match sy_r o with SyncBlocked _ => true | _ => false end) now
+           (tk_ws s ++ sy_ws o) (tk_reqs s ++ sy_reqs o) (tl (tk_left s))
+    else s.
+
+  (* n ticks: the clock advances by one period, then the request of that tick arrives *)
+  Fixpoint run_ticks (factor upTo : Z) (n : nat) (now : Z) (s : tick_state) : tick_state :=
+    match n with
+    | O => s
+    | S n' => run_ticks factor upTo n' (now + 1) (tick_request factor upTo (now + 1) s)
+    end.
 End SYNC.
 
 (* ---------------------------------------------------------------------------------------- *)
